@@ -398,7 +398,60 @@ def r9_dep_features(c, facts, rule='C14.R9'):
     c.floor(R, 'dependencies on serialisation crates in the manifests', n, 8)
 
 
+SERIALISERS = ('serde_yaml::to_string', 'serde_yaml::to_writer', 'serde_yaml::to_value', 'serde_json::to_string', 'serde_json::to_string_pretty', 'serde_json::to_writer', 'serde_json::to_writer_pretty', 'serde_json::to_value', 'serde_json::to_vec')
+
+
+def r10_document_verbatim(c, facts, rule='C14.R10'):
+    """what a front end serialises is the document Builder::into_openapi returned, as it returned it: the serialiser is
+    instantiated at openapiv3::OpenAPI (not at a generic value tree that was edited in between) and the document is
+    not mutably borrowed after it was built.  A tidy-up pass over the serialised tree (dropping empty mappings)
+    removes parts of the base: `scopes: {}`, `example: {}`, the any-schema `schema: {}`."""
+    R = c.rule(rule, 'DOCUMENT-VERBATIM: the front ends serialise the value into_openapi() returned - typed OpenAPI, not re-shaped or mutated between building and writing')
+    n = 0
+    for q in ('oal_cli::run', 'oal_wasm::process'):
+        plain = c.anchor(R, q)
+        fn = facts.normalised(plain)
+        built = [t['dest']['l'] for b, t in P.call_blocks(fn, 'Builder::into_openapi')]
+        if not built:
+            c.bad(R, '%s:no-into_openapi' % q, '%s no longer calls Builder::into_openapi' % q)
+            continue
+        sers = []
+        for b, t in fn.calls():
+            cal = callee_of(t)
+            if cal and any(P.strip(cal['def']).endswith(s) for s in SERIALISERS):
+                sers.append((b, t, cal))
+        if not sers:
+            c.bad(R, '%s:no-serialiser' % q, '%s no longer serialises the document with serde_yaml / serde_json' % q)
+            continue
+        for b, t, cal in sers:
+            n += 1
+            ty = (cal.get('gargs') or ['?'])[-1]
+            inst = {'fn': q, 'serialiser': P.strip(cal['def']), 'instantiated_at': ty}
+            if ty == 'openapiv3::openapi::OpenAPI' or ty.endswith('::OpenAPI'):
+                c.ok(R, inst)
+            elif '::' not in ty:
+                c.skip(R, '%s:%s' % (q, ty), 'serialiser instantiated at a type parameter')
+            else:
+                c.bad(R, '%s:serialises:%s' % (q, ty.split('<')[0]), '%s serialises a %s rather than the OpenAPI document into_openapi() returned: whatever re-shaped it in between (dropped empty mappings, re-ordered keys) also re-shapes what the base contributed' % (q, ty), **inst)
+        muts = []
+        for b, blk in fn.blocks():
+            for s in blk['stmts']:
+                if s['s'] != 'assign':
+                    continue
+                rv = s['rv']
+                if rv['r'] in ('ref', 'rawptr') and rv.get('mut') and rv['place']['l'] in built:
+                    muts.append(s.get('ln'))
+                if s['place']['l'] in built and s['place']['proj']:
+                    muts.append(s.get('ln'))
+        if muts:
+            c.bad(R, '%s:document-mutated-after-build' % q, '%s changes the document after into_openapi() built it (line %s): the parts taken from the base are no longer carried over as they were' % (q, sorted(set(muts))), fn=q)
+        else:
+            c.ok(R, {'fn': q, 'document after into_openapi()': 'never mutably borrowed or assigned into'})
+    c.floor(R, 'serialiser calls in the front ends', n, 2)
+
+
 def run(c, facts):
+    c.run(r10_document_verbatim, facts)
     c.run(r9_dep_features, facts)
     c.run(r7_base_readers, facts)
     import c13 as _c13
